@@ -94,7 +94,7 @@ BOUNDS = {
         "process-history": "every sequence of 2 or 3 module kinds: 150 histories",
     },
 }
-CAP_S = {"quick": 240, "thorough": 1800}
+CAP_S = {"quick": 400, "thorough": 1800}
 
 ET = gtirb.Edge.Type
 AT = gtirb.SymbolicExpression.Attribute
